@@ -69,11 +69,11 @@ func splitObs(out string) (own string, events []map[string]any, bad string) {
 				return "", nil, "a stack line of the trace is not followed by an instruction line: " + l
 			}
 			mi := instrOf(lines[i+1])
-			events = append(events, map[string]any{"e": "trace", "depth": depth, "off": mi.off, "op": mi.op})
+			events = append(events, map[string]any{"e": "trace", "depth": depth, "off": mi.off, "op": mi.op, "pl": mi.pl, "pc": mi.pc, "arg": mi.arg, "target": mi.target})
 			i++
 		case reInstr.MatchString(l):
 			mi := instrOf(l)
-			events = append(events, map[string]any{"e": "disasm", "off": mi.off, "op": mi.op, "depth": 0})
+			events = append(events, map[string]any{"e": "disasm", "off": mi.off, "op": mi.op, "depth": 0, "pl": mi.pl, "pc": mi.pc, "arg": mi.arg, "target": mi.target})
 		default:
 			sb.WriteString(l + "\n")
 		}
@@ -82,19 +82,33 @@ func splitObs(out string) (own string, events []map[string]any, bad string) {
 }
 
 type instrLine struct {
-	off int
-	op  string
+	off, pl, pc, arg, target int
+	op                       string
 }
 
+// instrOf parses one listing line: offset, position column ("L:C" or "|"), mnemonic, first numeric operand, jump target
 func instrOf(l string) instrLine {
-	off, _ := strconv.Atoi(l[:4])
+	il := instrLine{arg: -1, target: -1}
+	il.off, _ = strconv.Atoi(l[:4])
 	f := strings.Fields(l[4:])
-	// fields: position ("L:C" or "|"), mnemonic, operands…
-	op := ""
-	if len(f) >= 2 {
-		op = f[1]
+	if len(f) >= 1 && f[0] != "|" {
+		if i := strings.IndexByte(f[0], ':'); i > 0 {
+			il.pl, _ = strconv.Atoi(f[0][:i])
+			il.pc, _ = strconv.Atoi(f[0][i+1:])
+		}
 	}
-	return instrLine{off, op}
+	if len(f) >= 2 {
+		il.op = f[1]
+	}
+	if len(f) >= 3 {
+		if n, err := strconv.Atoi(f[2]); err == nil {
+			il.arg = n
+		}
+	}
+	if i := strings.Index(l, " -> "); i >= 0 && (il.op == "JUMP" || il.op == "JFALSE" || il.op == "LOOP") {
+		il.target, _ = strconv.Atoi(strings.TrimSpace(l[i+4:]))
+	}
+	return il
 }
 
 func driveObs(args []string) int {
@@ -188,7 +202,7 @@ func driveObs(args []string) int {
 		}
 		enc.Encode(hdr)
 		for _, e := range events {
-			for _, k := range []string{"off", "op", "depth", "grp", "key", "n"} {
+			for _, k := range []string{"off", "op", "depth", "grp", "key", "n", "pl", "pc", "arg", "target"} {
 				if _, ok := e[k]; !ok {
 					if k == "op" || k == "grp" || k == "key" {
 						e[k] = ""
